@@ -121,7 +121,7 @@ func genMsg(t *rapid.T, resp bool) MsgSpec {
 }
 
 func genFrame(t *rapid.T) FrameCase {
-	bigLeft = 3
+	bigLeft, hugeLeft = 3, 1
 	c := FrameCase{Resp: rapid.Bool().Draw(t, "resp")}
 	n := rapid.IntRange(0, 14).Draw(t, "n")
 	for i := 0; i < n; i++ {
@@ -246,6 +246,13 @@ func runFrame(c FrameCase, cc *kit.Case) {
 			}
 		}
 		cc.Label("kind:" + ms.K)
+		if len(ms.Data) > 1<<20 {
+			if i+1 < len(c.Msgs) {
+				cc.Label("payload>1MiB-followed")
+			} else {
+				cc.Label("payload>1MiB-last")
+			}
+		}
 	}
 	data := stream.Bytes()
 	if len(data) != off {
